@@ -749,8 +749,12 @@ HARNESSES = [
     H(resp_header, shards=lambda tier: [("len(value) == %d" % n, "as_text == %s" % x)
                                         for n in range(BOUNDS[tier]["hv"] + 1) for x in (False, True)],
       timeout={"quick": 60, "thorough": 1200}),
-    H(resp_badname, shards=lambda tier: [("len(name) == %d" % n, "as_text == %s" % x)
-                                         for n in range(1, BOUNDS[tier]["nm"] + 1) for x in (False, True)],
+    H(resp_badname, shards=lambda tier: [("len(name) == 1", "as_text == %s" % x) for x in (False, True)] +
+                                        [("len(name) == 2", "as_text == %s" % x, "name[0] %s '@'" % op)
+                                         for x in (False, True) for op in ("<", ">=")] +
+                                        [("len(name) == %d" % n, "as_text == %s" % x, rng)
+                                         for n in range(3, BOUNDS[tier]["nm"] + 1) for x in (False, True)
+                                         for rng in _FIRST],
       timeout={"quick": 90, "thorough": 1500}),
     H(resp_cookie, shards=lambda tier: [("which == %d" % w, "as_text == %s" % x)
                                         for w in range(6) for x in (False, True)],
